@@ -1047,11 +1047,6 @@ def run(ctx):
             r5 = ctx.coq(["C12_detn.v"], timeout=600)
             if not r5.ok:
                 failed.append(r5)
-            if ctx.tier == "thorough":      # 32 ring identities of degree 4 in 16 variables: ~10 s
-                ctx.copy_props("C12/C12_detn_adj.v")
-                r6 = ctx.coq(["C12_detn_adj.v"], timeout=900)
-                if not r6.ok:
-                    failed.append(r6)
         try:
             open(os.path.join(ctx.build, "Gen_TensorProd.v"), "w").write(T_lin.generate_tensorprod(ctx.repo))
             ctx.copy_props("C12/C12_tensorprod.v")
